@@ -98,6 +98,7 @@ type gcPublisher struct {
 }
 
 type gcWorld struct {
+	dupUUIDs bool // some UUID is published more than once (C11 worlds only)
 	r      *Run
 	o      gcOpts
 	cfg    gochannel.Config
@@ -169,6 +170,17 @@ func gcGenerate(r *Run, o gcOpts) *gcWorld {
 			}
 			pb.batches = append(pb.batches, b)
 			left -= b
+		}
+		if o.prop == "C11" && t.Chance(1, 3) {
+			// the same message (same UUID: "only used for debugging", may even be empty) is published once more
+			orig := pb.msgs[t.Int(len(pb.msgs))]
+			again := message.NewMessage(orig.UUID, orig.Payload)
+			for k, v := range orig.Metadata {
+				again.Metadata.Set(k, v)
+			}
+			pb.msgs = append(pb.msgs, again)
+			pb.batches = append(pb.batches, 1)
+			w.dupUUIDs = true
 		}
 		pb.reuse = t.Chance(1, 3)
 		pb.ctxEnds = -1
@@ -751,11 +763,25 @@ func (w *gcWorld) checkPersistent() {
 		for _, d := range s.deliveries {
 			got[d.uuid]++
 		}
+		// how often each UUID was successfully published (a UUID may be published more than once)
+		pubs := map[string]int{}
+		for _, rec := range w.recs {
+			if rec.topic == s.topic && rec.returned && rec.err == nil {
+				pubs[rec.uuid]++
+			}
+		}
 		for _, rec := range w.recs {
 			if rec.topic != s.topic || !rec.returned || rec.err != nil {
 				continue
 			}
 			switch n := got[rec.uuid]; {
+			case n < pubs[rec.uuid] && n > 0:
+				r.Fail("C11.R1", "a persistent subscription missed a successfully published message",
+					"sub %d (subscribed ev %d..%d) received %s %d times, it was published %d times", s.id, s.invEv, s.retEv, rec.uuid, n, pubs[rec.uuid])
+			case n > pubs[rec.uuid]:
+				r.Fail("C11.R2", "a persistent subscription that always acks received a message more than once",
+					"sub %d (subscribed ev %d..%d) received %s %d times (published %d times, ev %d..%d)", s.id, s.invEv, s.retEv, rec.uuid, n, pubs[rec.uuid], rec.invEv, rec.retEv)
+			case n == pubs[rec.uuid]:
 			case n == 0:
 				r.Fail("C11.R1", "a persistent subscription missed a successfully published message",
 					"sub %d (subscribed ev %d..%d) never received %s (published ev %d..%d)", s.id, s.invEv, s.retEv, rec.uuid, rec.invEv, rec.retEv)
